@@ -172,6 +172,8 @@ def restored_history():
             try:
                 src.save_state(path)
                 sm.load_state(path)
+                import shutil
+                shutil.rmtree(d, True)
             except Exception as e:
                 return None if isinstance(e, (AttributeError, TypeError)) else f"save/load of the state manager raised {type(e).__name__}: {e}"
         try:
@@ -184,10 +186,78 @@ def restored_history():
     return None
 
 
+def integer_histories():
+    """log-likelihoods stored with an integer (or mixed) dtype - a vectorised counting likelihood returns such arrays and the manager
+    stores what it is given: the weights follow the formula evaluated on the stored values, they are not truncated"""
+    rng = np.random.RandomState(21)
+    for T, dt in ((1, np.int64), (3, np.int64), (4, np.int32), (5, np.int64), (3, "mixed")):
+        ns = rng.randint(2, 9, size=T)
+        betas = np.r_[0.0, np.sort(rng.rand(T - 1))]
+        batches = [(betas[t], rng.randn() * 0.7, -rng.randint(0, 12, size=ns[t])) for t in range(T)]
+        for bf in (0.37, 1.0):
+            sm = StateManager(1)
+            for t, (beta, logz, logl) in enumerate(batches):
+                n = len(logl)
+                arr = np.asarray(logl, float if (dt == "mixed" and t % 2) else (np.int64 if dt == "mixed" else dt))
+                sm.update_current({"u": np.zeros((n, 1)), "x": np.zeros((n, 1)), "logl": arr, "beta": float(beta), "logz": float(logz)})
+                sm.commit_current_to_history()
+            try:
+                lw, lz = sm.compute_logw_and_logz(bf)
+                lwu, _ = sm.compute_logw_and_logz(bf, normalize=False)
+            except Exception as e:
+                return f"integer log-likelihood history (T={T}): {type(e).__name__}: {e}"
+            slw, slz, su = spec(batches, bf)
+            dev = max(np.abs(np.asarray(lw, float) - slw).max(), np.abs(np.asarray(lwu, float) - su).max())
+            if dev > 1e-8 * (1 + np.abs(su).max()) or abs(lz - slz) > 1e-8 * (1 + abs(slz)):
+                return (f"history whose log-likelihoods are stored as {dt if dt == 'mixed' else np.dtype(dt).name} (T={T}, beta={bf}): log-weights deviate "
+                        f"from the formula by {dev:.3g}, logz {lz!r} vs {slz!r}")
+            if abs(np.exp(np.asarray(lw, float)).sum() - 1) > 1e-8:
+                return f"integer log-likelihood history: normalised weights sum to {np.exp(np.asarray(lw, float)).sum()}"
+    return None
+
+
+def reused_sampler():
+    """the public facade: one Sampler object used as a reader for checkpoints of two chains with the same number of iterations
+    (load_state), posterior(return_logw=True) after each load: log-weights, weights and samples are those of the history now stored"""
+    import tempfile, shutil, os
+    sys.path.insert(0, os.path.dirname(os.path.abspath(__file__)))
+    import _reuse
+    base = tempfile.mkdtemp(prefix="c04r_")
+    cwd = os.getcwd()
+    os.chdir(base)
+    try:
+        a, b, ca, cb = _reuse.two_chains(base, n_total=128)
+        reader = _reuse.used_reader(base)
+        ks = sorted(set(ca) & set(cb))
+        for k in (ks[len(ks) // 2], ks[-1]):
+            for path, who in ((ca[k], "A"), (cb[k], "B"), (ca[k], "A again")):
+                reader.load_state(path)
+                st = reader.state
+                batches = [(bt, lz, ll) for bt, lz, ll in zip(st.get_history("beta"), st.get_history("logz"), st.get_history("logl"))]
+                for opts in (dict(trim_importance_weights=False), dict()):
+                    x, w, l, lw = reader.posterior(return_logw=True, **opts)
+                    _, _, su = spec(batches, 1.0)
+                    xs, ls = st.get_history("x", flat=True), st.get_history("logl", flat=True)
+                    rows = {(tuple(np.round(r, 12)), round(float(ll), 9)): i for i, (r, ll) in enumerate(zip(xs, ls))}
+                    for r, ll, g in zip(x, l, lw):
+                        i = rows.get((tuple(np.round(r, 12)), round(float(ll), 9)))
+                        if i is None:
+                            return (f"posterior() of a sampler that had already served another history (load_state of chain {who}, iteration {k}) "
+                                    f"returned a sample that is not in the history now stored")
+                        if abs(g - su[i]) > 1e-6 * (1 + abs(su[i])) and abs((g - lw[0]) - (su[i] - su[rows[(tuple(np.round(x[0], 12)), round(float(l[0]), 9))]])) > 1e-6 * (1 + abs(su[i])):
+                            return (f"posterior(return_logw=True) after load_state of chain {who}, iteration {k}: log-weight {g!r} of a stored sample, "
+                                    f"the formula on the stored history gives {su[i]!r}")
+    finally:
+        os.chdir(cwd)
+        shutil.rmtree(base, True)
+    return None
+
+
 def main():
     p = json.load(open(sys.argv[1]))
     tried = 0
-    for name, fn in (("long-history", long_history), ("restored-history", restored_history)):
+    for name, fn in (("long-history", long_history), ("restored-history", restored_history), ("integer-histories", integer_histories),
+                     ("reused-sampler", reused_sampler)):
         tried += 1
         try:
             r = fn()
